@@ -10,6 +10,9 @@
     incremental allocators start from the base size, and each PdfWriter incremental entry point must
     seed `next_object_id` from the base file before its first allocation.
  R4 reader side: C04-R3 (a newer plain/free entry must beat an older compressed one).
+ R5 the latest edit of a batch wins: in `fill_many_impl` every edit of the list that resolves to a field reaches a write of its
+    new dictionary into the table of modified objects — an overwrite of the slot already scheduled for that object, or a push. A
+    path that skips a repeated object (`if !seen.insert(id) { continue }`) keeps the *first* value of a field edited twice.
 Not decided: visibility of each edited value; equality of untouched objects.
 """
 from .. import lib as L
@@ -24,6 +27,7 @@ MODS = ("writer::incremental_update::", "writer::incremental_form_fill::", "writ
 
 
 def run(ctx):
+    r5_last_edit_wins(ctx)
     facts = ctx.facts
     n = 0
     bad = 0
@@ -197,3 +201,48 @@ def run(ctx):
             ctx.violation("R4", "reader:" + v["key"], v["msg"], v["where"], v["witness"])
     if not [v for v in sub.violations if v["rule"] == "R3" or (v["rule"] == "R2" and v["key"].startswith("merge:field:"))]:
         ctx.ok("R4", "reader:newest-revision-wins-across-maps", "C04-R3 holds")
+
+
+def r5_last_edit_wins(ctx):
+    facts = ctx.facts
+    fn = ctx.fn("writer::incremental_form_fill::fill_many_impl", "R5")
+    g = CF.cfg(fn)
+    fl = FL.flow(fn)
+    names = fn.local_names()
+    mods = [l for l, nme in names.items() if nme == "modified"]
+    n = 0
+    for h, body in sorted(g.loops().items()):
+        nx = [b for b in body if fn.term(b)[0] == "call" and L.is_call_to(fn.term(b)[1], ["Iterator::next"])
+              and "&str" in (fn.term(b)[1].get("self") or "")]
+        if not nx:
+            continue
+        writes = set()
+        for b in body:
+            t = fn.term(b)
+            if t[0] == "call" and L.is_call_to(t[1], ["Vec::<T, A>::push"]):
+                r = L.recv_of(fn, t[2])
+                if r and (r[0] in mods or "PdfDictionary)" in fn.locals[r[0]]):
+                    writes.add(b)
+            for st in fn.blocks[b][0]:
+                pl = st[1]
+                if pl[1] and pl[1][0] == "*" and "PdfDictionary" in fn.locals[pl[0]]:
+                    seen, drecs = fl.back_slice([pl[0]])
+                    if any(dd[0] == "call" and L.is_call_to(fn.term(dd[1])[1], ["find", "position", "get_mut", "iter_mut"]) for dd in drecs):
+                        writes.add(b)
+        if not writes:
+            continue
+        n += 1
+        key = "fill_many_impl:every-edit-written"
+        dest = fn.term(nx[0])[3][0]
+        y, no = L.discr_edges(fn, dest, 1)
+        some_t = [t for s_, t in y if t in body] or [nx[0]]
+        latches = [s_ for s_, hh in g.back_edges() if hh == h]
+        outside = set(range(len(fn.blocks))) - set(body)
+        w = g.path(some_t[0], latches, avoid_blocks=writes | outside)
+        if w is None:
+            ctx.ok("R5", key, "every edit that resolves overwrites or appends its object's dictionary", fn.where(h))
+        else:
+            ctx.violation("R5", key, "an edit of the batch can be skipped without its dictionary being written into the table of "
+                          "modified objects (line(s) %s): when the same field is edited twice in one `fill_many` call the earlier "
+                          "value is kept and the latest one is lost" % sorted(set(fn.line(x) for x in w))[:8], fn.where(w[0]))
+    ctx.floor("R5", "edit loop in fill_many_impl", n, 1)
